@@ -111,18 +111,21 @@ def case_pair(case):
         return {"v": v, "t": t, "o": "bad-ideal", "nt": True}
 
     # ---- classification by the oracle ------------------------------------------------------
+    # conditioning: the ideal endpoints come out of the quadratic formula null to ~eps (2/|A-B|)^2, and their
+    # conformal coordinates take the square root of that: sqrt-eps class times 1/|A-B|
+    cond = max(1.0, 1.0 / float(np.linalg.norm(B - A)))
     e1 = orc.infinity(n)
     if model == "poincare":
         d0 = orc.line_origin_dist(A, B)
         exact = d0 <= 1e-12
         V = float("inf") if exact else 1.0 / d0
-        tol = TAU * (1.0 + V)
+        tol = TAU * (1.0 + V) * cond
         klass = "diameter" if exact else ("near-diameter" if V > 50 else "generic")
     else:
         ang = min(orc.angle_between(ea, e1), orc.angle_between(eb, e1))
         exact = ang <= 1e-9
         V = float("inf") if exact else _hs_scale(n, [ea, eb])
-        tol = TAU * (1.0 + V) ** 2
+        tol = TAU * (1.0 + V) ** 2 * cond
         klass = "vertical" if exact else ("near-vertical" if ang < INF_MARGIN else "generic")
 
     if n == 2:
@@ -178,7 +181,10 @@ def case_pair(case):
                         "%s: centre %s is %.3g off the plane of the geodesic" % (where, _f(c), off)))
 
     delta = None
-    if th is not None and not v:
+    if th is not None and not v and klass != "near-vertical":
+        # (near-vertical half-space geodesics: the height of the centre carries an error ~1e-8 V^2 that
+        # can exceed the height of the endpoints, so the sign of the angles is noise there; only the
+        # circle equations are demanded, to relative tolerance)
         th = np.asarray(th, dtype=float)
         if th.shape != (2,) or not _finite(th):
             v.append(_V("%s/angles/%s/shape" % (name, model), "%s: angles %r" % (where, th)))
@@ -218,7 +224,7 @@ def case_pair(case):
                                 "%s: sample %d: d(A,x)+d(x,B)-d(A,B) = %.3g in the %s metric" % (where, j, D, model)))
                     break
     o = "%s|%s|%s|%s|%s" % (cls, model, klass, "deg" if deg else "rad",
-                            "-" if delta is None else "%.1f" % delta)
+                            ("r%.1f" % min(r, 99.0)) if delta is None else "%.1f" % delta)
     return {"v": v, "t": t, "o": o, "nt": True}
 
 
@@ -404,8 +410,8 @@ def case_subspace(case):
 # enumeration
 # ------------------------------------------------------------------------------------------
 def _alphabet(n, q, seed):
-    P = lattice.klein_points(n, m_generic=6 if q else 16, seed=seed, rmax=0.9 if q else 0.99)
-    I = lattice.ideal_dirs(n, m_generic=4 if q else 8, seed=seed, avoid_infinity=INF_MARGIN)
+    P = lattice.klein_points(n, m_generic=6 if q else (30 if n == 2 else 16), seed=seed, rmax=0.9 if q else 0.99)
+    I = lattice.ideal_dirs(n, m_generic=4 if q else (12 if n == 2 else 8), seed=seed, avoid_infinity=INF_MARGIN)
     return P, I
 
 
@@ -529,6 +535,8 @@ def run(ctx):
     ctx.assume("points are given by their Klein representative (x0 = 1); rescaled representatives belong to C12")
     ctx.assume("half-space: circle equations at tolerance 1e-6 (1+V)^2, V = largest half-space coordinate of the ideal endpoints "
                "(oracle); the pairs whose geodesic ends within 0.2 rad of the point at infinity are thereby only checked to that scale")
+    ctx.assume("the angle pair of a half-space geodesic that ends within 0.2 rad of the point at infinity is not checked "
+               "(its sign is below the sqrt-eps noise of the centre height); its circle equations are")
     ctx.assume("exact straight lines (Poincare diameters: Klein line within 1e-12 of the origin; half-space verticals: an ideal "
                "endpoint within 1e-9 rad of infinity) must report a NaN/inf or > 1e6 radius; nothing else is demanded of them")
     ctx.assume("ideal bases of subspaces are affinely independent (relative singular value >= 1e-3); half-space subspaces stay "
@@ -537,11 +545,11 @@ def run(ctx):
                ">= 0.3 rad away from the ideal centre")
     ctx.assume("Poincare subspaces through the origin may report a non-finite radius (flat limit)")
     ctx.tolerances["ideal endpoints (Klein)"] = "1e-8 collinearity, 1e-7 against the oracle chord ends, 1e-9 relative Minkowski norm: projective data, no square-root cancellation beyond the quadratic formula"
-    ctx.tolerances["poincare circle"] = "1e-6 (1+V), V = 1/dist(origin, Klein line) ~ |centre|: sqrt-eps class (Poincare coordinates of ideal points carry 1e-8), scaled by the size of the circle"
-    ctx.tolerances["halfspace circle"] = "1e-6 (1+V)^2, V = max half-space coordinate of the ideal endpoints: DESIGN section 4 sqrt-eps class"
+    ctx.tolerances["poincare circle"] = "1e-6 (1+V) max(1, 1/|A-B|), V = 1/dist(origin, Klein line) ~ |centre|: sqrt-eps class (Poincare coordinates of ideal points carry 1e-8), scaled by the size of the circle"
+    ctx.tolerances["halfspace circle"] = "1e-6 (1+V)^2 max(1, 1/|A-B|), V = max half-space coordinate of the ideal endpoints: DESIGN section 4 sqrt-eps class"
     ctx.tolerances["arc on segment"] = "Klein collinearity and betweenness at the circle tolerance; |d(A,x)+d(x,B)-d(A,B)| <= 1e-6 (1+d)^2 in the model's closed-form metric"
     ctx.tolerances["straight-line limit"] = "radius NaN/inf or > 1e6 (drawtools switches to a straight line on isnan or r > 80)"
-    dom = {"P_n": "corner + %d generic Klein points" % (6 if q else 16), "I_n": "axis, diagonal and %d generic ideal directions" % (4 if q else 8),
+    dom = {"P_n": "corner + %s generic Klein points" % ("6" if q else "30 (n=2) / 16"), "I_n": "axis, diagonal and %s generic ideal directions" % ("4" if q else "12 (n=2) / 8"),
            "models": MODELS}
     if want("pairs-H2"):
         cases = list(pair_cases(2, q, seed))
